@@ -10,7 +10,7 @@
    are re-applied on load (runtime_reapplied). *)
 From Coq Require Import String List Ascii Bool Arith.
 From LV Require Import Cache.Bytes Cache.PyRepr Gen.CacheKey Cache.Cache Cache.PyRepr_proofs Cache.Cache_proofs
-  Cache.CacheInstance Cache.CutPickle_proofs.
+  Cache.CacheInstance Cache.CutPickle_proofs Cache.WritePath Cache.WritePath_proofs.
 Import ListNotations.
 
 Section Statements.
@@ -111,6 +111,58 @@ Section Statements.
         Inv fl1 /\
         event_ok R sha D P encU decU encD decD build load okenv fl1 ev (fst (step fl1 ev)) (snd (step fl1 ev)).
   Proof. exact (history_inv_b R sha D P encU decU encD decD build load okenv). Qed.
+
+  (* ---- the write path as coded (round 12): open('wb') / atomicwrites, the regenerated sequence of write calls ---- *)
+  Notation wcalls := (wcalls sha D encU encD).
+
+  (* The write calls regenerated from the source (Gen/CacheKey.v write_calls), concatenated, are the file of the model. *)
+  Theorem C12_write_calls_file :
+    forall k u d, concat (wcalls k u d) = write k u d.
+  Proof. exact (concat_wcalls sha D encU encD). Qed.
+
+  (* A writer that dies at any point - before the open, while the body is pickled, between two write calls, inside one -
+     under plain open() (operating-system model: truncate, then writes at the writer's offset) or under atomicwrites
+     (rename on close): the path keeps its invariant, every later reader gets a Miss or exactly the uncached parser, and
+     the next construction returns the uncached parser and leaves a valid cache. *)
+  Theorem C12_crash_anywhere_miss_or_correct :
+    ideal_oracles sha D encU decU encD decD -> rest_of_lark R sha D P build load okenv ->
+    forall s fl c e b cp, okenv e -> Inv fl -> build c e = Some b ->
+      let fl' := crash_file s fl (wcalls (key R c) (bused D P b) (bdata D P b)) cp in
+      Inv fl' /\
+      forall c' e', okenv e' ->
+        match lookup R sha D P decU decD load fl' c' e' with
+        | Hit p => uncached R D P build c' e' = Some p
+        | Miss => True
+        end /\
+        fst (construct fl' c' e') = uncached R D P build c' e' /\
+        (uncached R D P build c' e' <> None ->
+         valid_for R sha D P encU decU encD decD build load okenv c' e' (snd (construct fl' c' e'))).
+  Proof. exact (crash_anywhere_miss_or_correct R sha D P encU decU encD decD build load okenv). Qed.
+
+  (* "a crash leaves a prefix" is a consequence of the operating-system model, no longer an assumption ... *)
+  Theorem C12_crash_plain_prefix :
+    forall fl k u d cp,
+      crash_file Plain fl (wcalls k u d) cp = fl \/
+      exists n, crash_file Plain fl (wcalls k u d) cp = Some (firstn n (write k u d)).
+  Proof. exact (crash_plain_prefix sha D encU encD). Qed.
+
+  (* ... and under atomicwrites a crash leaves the old file (or no file). *)
+  Theorem C12_crash_atomic_old :
+    forall fl calls cp, crash_file Atomic fl calls cp = fl.
+  Proof. exact crash_file_atomic. Qed.
+
+  (* Histories whose events carry the kind of FS.open and a crash point. *)
+  Theorem C12_history_crashpoints_inv :
+    ideal_oracles sha D encU decU encD decD -> rest_of_lark R sha D P build load okenv ->
+    forall h, Forall (fun ev => okenv (e2env R ev)) h -> forall fl, Inv fl ->
+      Inv (snd (run2 R sha D P encU decU encD decD build load fl h)) /\
+      forall h1 ev h2, h = h1 ++ ev :: h2 ->
+        let fl1 := snd (run2 R sha D P encU decU encD decD build load fl h1) in
+        Inv fl1 /\
+        event2_ok R sha D P encU decU encD decD build load okenv ev
+          (fst (step2 R sha D P encU decU encD decD build load fl1 ev))
+          (snd (step2 R sha D P encU decU encD decD build load fl1 ev)).
+  Proof. exact (history2_inv R sha D P encU decU encD decD build load okenv). Qed.
 End Statements.
 
 Print Assumptions C12_trunc_safe.
@@ -123,6 +175,11 @@ Print Assumptions C12_byte_edit_miss.
 Print Assumptions C12_read_after_write.
 Print Assumptions C12_construct_spec.
 Print Assumptions C12_history_inv.
+Print Assumptions C12_write_calls_file.
+Print Assumptions C12_crash_anywhere_miss_or_correct.
+Print Assumptions C12_crash_plain_prefix.
+Print Assumptions C12_crash_atomic_old.
+Print Assumptions C12_history_crashpoints_inv.
 
 (* A cut pickle under a header recomputed for it (the digests agree): unpickling a strict prefix fails and the
    failure is a Miss - independent of any property of the digest.  This is what `except Exception` is for. *)
@@ -183,3 +240,30 @@ Proof.
   repeat constructor; discriminate.
 Qed.
 Print Assumptions C12_example_history_inv.
+
+(* a history with crash points under both kinds of FS.open: build; the import is edited and the plain writer dies inside
+   the header write (65 bytes): no result, a prefix is left; rebuild; another hashed option and the atomic writer dies
+   after both writes, before the rename: no result, the OLD file is still there and is served to its own configuration *)
+Definition t_history2 : list (event2 bool) := [
+  mkEv2 bool (t_cfg "start: X"%string "False"%string false) (t_env "X: ""x"""%string) Plain None;
+  mkEv2 bool (t_cfg "start: X"%string "False"%string false) (t_env "X: ""y"""%string) Plain (Some (CInWrite 0 65));
+  mkEv2 bool (t_cfg "start: X"%string "False"%string true)  (t_env "X: ""y"""%string) Plain None;
+  mkEv2 bool (t_cfg "start: X"%string "True"%string true)   (t_env "X: ""y"""%string) Atomic (Some (CInWrite 2 0));
+  mkEv2 bool (t_cfg "start: X"%string "False"%string false) (t_env "X: ""y"""%string) Atomic None ].
+
+Definition t_run2 := run2 bool t_sha bytes t_P t_encU t_decU enc_b dec_b t_build t_load None t_history2.
+
+Example C12_example_history_crashpoints :
+  fst t_run2 = [parser_of "start: X" "X: ""x""" false; None; parser_of "start: X" "X: ""y""" true; None;
+                parser_of "start: X" "X: ""y""" false] /\
+  snd t_run2 = snd (run2 bool t_sha bytes t_P t_encU t_decU enc_b dec_b t_build t_load None (firstn 3 t_history2)).
+Proof. vm_compute. split; reflexivity. Qed.
+
+Example C12_example_history_crashpoints_inv :
+  Inv bool t_sha bytes t_P t_encU enc_b t_build t_okenv (snd t_run2).
+Proof.
+  refine (proj1 (C12_history_crashpoints_inv bool t_sha bytes t_P t_encU t_decU enc_b dec_b t_build t_load t_okenv
+                                             t_ideal t_rest t_history2 _ None (or_introl eq_refl))).
+  repeat constructor; discriminate.
+Qed.
+Print Assumptions C12_example_history_crashpoints_inv.
